@@ -42,6 +42,10 @@ func main() {
 	// created by the hundred thousand, so its ticker is created through a hook (the sweep itself
 	// is invoked explicitly where a check needs it)
 	rewriteGo(*repo, *out, res, "pkg/hls/server_handler.go", "sh.runLoop()", "verifGo(sh.runLoop)")
+	// lal's mutexes become schedulable (C20): sync.Mutex / sync.RWMutex -> zzverifsync.Mutex / RWMutex
+	for _, d := range []string{"pkg/logic", "pkg/rtsp", "pkg/hls", "pkg/base"} {
+		rewriteMutex(*repo, *out, res, d)
+	}
 	// BaseInSession.SetObserver delivers the SDP from a goroutine of its own: counted, so that a step
 	// is settled only when it has run
 	rewriteGoLit(*repo, *out, res, "pkg/rtsp/base_in_session.go", "session.observer.OnSdp(session.sdpCtx)", "verifGo")
@@ -502,6 +506,70 @@ func keepSym(pkg string) string {
 		return "IPv4len"
 	}
 	return "X"
+}
+
+// rewriteMutex replaces the types sync.Mutex and sync.RWMutex in every non-test file of a package
+// directory by zzverifsync.Mutex / RWMutex and adds the import.
+func rewriteMutex(repo, out string, res map[string]string, rel string) {
+	ents, err := os.ReadDir(filepath.Join(repo, rel))
+	if err != nil {
+		die("%v", err)
+	}
+	for _, e := range ents {
+		n := e.Name()
+		if !strings.HasSuffix(n, ".go") || strings.HasSuffix(n, "_test.go") || strings.HasPrefix(n, "zz_verif") {
+			continue
+		}
+		src := filepath.Join(repo, rel, n)
+		b := readCur(res, src)
+		fset := token.NewFileSet()
+		af, err := parser.ParseFile(fset, src, b, parser.ParseComments)
+		if err != nil {
+			die("%v", err)
+		}
+		type span struct{ lo, hi int }
+		var spans []span
+		other := false
+		ast.Inspect(af, func(nd ast.Node) bool {
+			se, ok := nd.(*ast.SelectorExpr)
+			if !ok {
+				return true
+			}
+			id, ok := se.X.(*ast.Ident)
+			if !ok || id.Name != "sync" {
+				return true
+			}
+			if se.Sel.Name == "Mutex" || se.Sel.Name == "RWMutex" {
+				spans = append(spans, span{fset.Position(id.Pos()).Offset, fset.Position(id.End()).Offset})
+			} else {
+				other = true
+			}
+			return true
+		})
+		if len(spans) == 0 {
+			continue
+		}
+		var outb []byte
+		prev := 0
+		for _, sp := range spans {
+			outb = append(outb, b[prev:sp.lo]...)
+			outb = append(outb, "zzverifsync"...)
+			prev = sp.hi
+		}
+		outb = append(outb, b[prev:]...)
+		// import: right after the package clause
+		pe := fset.Position(af.Name.End()).Offset
+		imp := "\nimport \"github.com/q191201771/lal/pkg/zzverifsync\"\n"
+		outb = append(append(append([]byte{}, outb[:pe]...), imp...), outb[pe:]...)
+		if !other {
+			outb = append(outb, []byte("\n// keeps the import referenced after the generated rewrite\nvar _ sync.Once\n")...)
+		}
+		p := filepath.Join(out, "gen_"+strings.ReplaceAll(filepath.Join(rel, n), "/", "_"))
+		if err := os.WriteFile(p, outb, 0o644); err != nil {
+			die("%v", err)
+		}
+		res[src] = p
+	}
 }
 
 // rewriteGoLit replaces `go func() {...}()` (a literal without arguments whose text contains marker)
